@@ -10,7 +10,7 @@ use crate::types::{ColDef, CT, V};
 use crate::Ctx;
 use serde_json::json;
 
-pub const KEY_LETTERS: [char; 7] = ['a', 'c', 'd', 'g', 'h', 'i', 'r'];
+pub const KEY_LETTERS: [char; 9] = ['a', 'c', 'd', 'g', 'h', 'i', 'm', 'n', 'r'];
 
 fn monitors() -> Monitors {
     Monitors { invariants: true, ..Default::default() }
@@ -158,8 +158,8 @@ pub fn run(ctx: &Ctx) -> Report {
         }
         return rep;
     }
-    let depth = if ctx.quick() { 5 } else { 6 };
-    let n_random = ctx.budget(500, 8000);
+    let depth = if ctx.quick() { 4 } else { 6 };
+    let n_random = ctx.budget(4_000, 40_000);
     let seed = ctx.seed;
     let base_ref = &base;
     let mut rep = parallel(ctx.threads, |shard, n| {
@@ -181,7 +181,7 @@ pub fn run(ctx: &Ctx) -> Report {
         }
         rep
     });
-    rep.exhaustive_parts.push(format!("all sequences up to depth {} over the 7 key-affecting letters {:?}", depth, KEY_LETTERS));
+    rep.exhaustive_parts.push(format!("all sequences up to depth {} over the 9 key-affecting letters {:?}", depth, KEY_LETTERS));
     rep.sample(json!({"kind": "alphabet word", "word": "ach", "steps": hist::expand(&['a', 'c', 'h']).iter().map(|s| s.to_json()).collect::<Vec<_>>()}));
     let (n, st) = &directed_steps()[0];
     rep.sample(json!({"kind": "directed", "name": n, "steps": st.iter().map(|s| s.to_json()).collect::<Vec<_>>()}));
